@@ -99,7 +99,12 @@ def read_batch(buffer: IO[bytes]) -> RecordBatch:
         records = []
         for _ in range(num_records):
             record = read_record(batch_buffer, base_timestamp, base_offset)
-            if record.timestamp.timestamp() > max_timestamp:
+            # With log append time (attributes bit 3), max timestamp is the time of the
+            # broker, and says nothing about the timestamps of the records.
+            if (
+                not attributes & 0b1000
+                and record.timestamp.timestamp() > max_timestamp
+            ):
                 raise ValueError("Record has timestamp larger than batch max timestamp")
             records.append(record)
 
